@@ -5,8 +5,8 @@ import (
 	"bytes"
 	"context"
 	"encoding/json"
-	"fmt"
 	"errors"
+	"fmt"
 	"io"
 	"os"
 	"path/filepath"
@@ -38,6 +38,9 @@ type Case struct {
 	Sizes    []int  `json:"sizes"`
 	MaxInMem uint64 `json:"max_in_mem_log_size"`
 	Prepop   bool   `json:"target_prepopulated,omitempty"`
+	// KeyLens (parallel to Sizes): 0 = the short default key, L = a key of L bytes ('K' repeated, last
+	// byte distinct): keys at and just below the 1024-byte limit share their first 1019 bytes
+	KeyLens []int `json:"key_lengths,omitempty"`
 	// AfterFailed: an interrupted restore of another image into the same table comes first
 	AfterFailed bool   `json:"after_interrupted_restore,omitempty"`
 	Corrupt     string `json:"corrupt,omitempty"`
@@ -124,7 +127,14 @@ func retryCAS(f func() error) error {
 }
 
 // fill creates a table with the given value sizes and returns its content.
-func fill(e *engx.Engine, name string, sizes []int) ([]*regattapb.KeyValue, error) {
+func keyOf(i int, keyLens []int) []byte {
+	if i < len(keyLens) && keyLens[i] > 0 {
+		return append(bytes.Repeat([]byte("K"), keyLens[i]-1), byte('a'+i))
+	}
+	return []byte(fmt.Sprintf("k%02d", i))
+}
+
+func fill(e *engx.Engine, name string, sizes []int, keyLens ...int) ([]*regattapb.KeyValue, error) {
 	if err := retryCAS(func() error { _, err := e.CreateTable(name); return err }); err != nil {
 		return nil, err
 	}
@@ -134,7 +144,7 @@ func fill(e *engx.Engine, name string, sizes []int) ([]*regattapb.KeyValue, erro
 	ctx, cancel := context.WithTimeout(context.Background(), 30*time.Second)
 	defer cancel()
 	for i, s := range sizes {
-		if _, err := e.Put(ctx, &regattapb.PutRequest{Table: []byte(name), Key: []byte(fmt.Sprintf("k%02d", i)), Value: valueOf(i, s)}); err != nil {
+		if _, err := e.Put(ctx, &regattapb.PutRequest{Table: []byte(name), Key: keyOf(i, keyLens), Value: valueOf(i, s)}); err != nil {
 			return nil, err
 		}
 	}
@@ -228,7 +238,7 @@ func diffSig(got, want []*regattapb.KeyValue) string {
 func runManager(e *engx.Engine, c Case) (vs []viol, outcome string, inconclusive bool) {
 	n := seq.Add(1)
 	src, tgt := fmt.Sprintf("src%d", n), fmt.Sprintf("tgt%d", n)
-	want, err := fill(e, src, c.Sizes)
+	want, err := fill(e, src, c.Sizes, c.KeyLens...)
 	if err != nil {
 		return nil, "setup:" + err.Error(), true
 	}
@@ -341,7 +351,7 @@ func memClass(k uint64) string {
 func runWorker(leader, follower *engx.Engine, conn *grpc.ClientConn, c Case) (vs []viol, outcome string, inconclusive bool) {
 	n := seq.Add(1)
 	name := fmt.Sprintf("w%d", n)
-	want, err := fill(leader, name, c.Sizes)
+	want, err := fill(leader, name, c.Sizes, c.KeyLens...)
 	if err != nil {
 		return nil, "setup:" + err.Error(), true
 	}
@@ -396,7 +406,7 @@ func runBackup(e *engx.Engine, c Case) (vs []viol, outcome string, inconclusive 
 	// this part runs on its own small engine with exactly one table
 	n := seq.Add(1)
 	name := fmt.Sprintf("b%d", n)
-	want, err := fill(e, name, c.Sizes)
+	want, err := fill(e, name, c.Sizes, c.KeyLens...)
 	if err != nil {
 		return nil, "setup:" + err.Error(), true
 	}
@@ -576,7 +586,7 @@ func Run(r *evid.Run) {
 		maxN = 5
 		mems = []uint64{0, 600, 700, 800, 1000, 2000, 6 << 20}
 	}
-	r.Rule(fmt.Sprintf("(manager) contents = every sequence of 0..%d pairs with value sizes from %v (every order) x MaxInMemLogSize in %v (settings under which dragonboat starves proposals are excluded by construction) x target {absent, pre-populated with other keys} x {directly, after a restore of another three-pair image into the same table that broke off with a transport error once its pairs had been read}: captured with the real SnapshotServer.Stream on a real engine, loaded with the real Manager.Restore/readIntoTable, read back with a linearizable full range: content must equal the captured content, leader index = declared index, shard id grows. (worker) the same contents through real gRPC -> real replication worker.recover() on follower engines with MaxInMemLogSize 0 and 6MiB. (backup) backup.Backup -> backup.Restore through real gRPC incl. a bit flip in the first/middle/last byte of the file (must be refused, table unchanged). Large values (64KiB, 2MiB) thorough only. Non-trivial: at least one pair; distinct = distinct (case, restored size) outcomes", maxN, classes, mems))
+	r.Rule(fmt.Sprintf("(manager) contents = every sequence of 0..%d pairs with value sizes from %v (every order; plus one content whose keys are 1019, 1020, 1023, 1024, 1024 and 1 bytes long, sharing their first 1019 bytes, on every path) x MaxInMemLogSize in %v (settings under which dragonboat starves proposals are excluded by construction) x target {absent, pre-populated with other keys} x {directly, after a restore of another three-pair image into the same table that broke off with a transport error once its pairs had been read}: captured with the real SnapshotServer.Stream on a real engine, loaded with the real Manager.Restore/readIntoTable, read back with a linearizable full range: content must equal the captured content, leader index = declared index, shard id grows. (worker) the same contents through real gRPC -> real replication worker.recover() on follower engines with MaxInMemLogSize 0 and 6MiB. (backup) backup.Backup -> backup.Restore through real gRPC incl. a bit flip in the first/middle/last byte of the file (must be refused, table unchanged). Large values (64KiB, 2MiB) thorough only. Non-trivial: at least one pair; distinct = distinct (case, restored size) outcomes", maxN, classes, mems))
 	eng, err := engx.Start(engx.Opts{})
 	if err != nil {
 		fmt.Println("INFRA: engine start failed:", err)
@@ -603,6 +613,11 @@ func Run(r *evid.Run) {
 				cases = append(cases, Case{Kind: "manager", Sizes: s, MaxInMem: k, AfterFailed: true}, Case{Kind: "manager", Sizes: s, MaxInMem: k, Prepop: true, AfterFailed: true})
 			}
 		}
+	}
+	// keys at the length limit (every MaxInMemLogSize)
+	longKeys := []int{1019, 1020, 1023, 1024, 1024, 1}
+	for _, k := range mems {
+		cases = append(cases, Case{Kind: "manager", Sizes: []int{1, 1, 1, 1, 1, 1}, KeyLens: longKeys, MaxInMem: k})
 	}
 	r.Extra("excluded_infeasible_settings", skipped)
 	oldWorkers := par.Workers
@@ -652,6 +667,7 @@ func Run(r *evid.Run) {
 			for _, s := range wc {
 				wcases = append(wcases, Case{Kind: "worker", Sizes: s, MaxInMem: k}, Case{Kind: "worker", Sizes: s, MaxInMem: k, Prepop: true})
 			}
+			wcases = append(wcases, Case{Kind: "worker", Sizes: []int{1, 1, 1, 1, 1, 1}, KeyLens: []int{1019, 1020, 1023, 1024, 1024, 1}, MaxInMem: k})
 			wdone := par.For(int64(len(wcases)), r.Expired, func(i int64) {
 				vs, outcome, inc := runWorker(eng, fol, conn, wcases[i])
 				record(wcases[i], vs, outcome, inc)
@@ -674,6 +690,12 @@ func Run(r *evid.Run) {
 				record(c, vs, outcome, inc)
 				r.AddExtra("backup_cases", 1)
 			}
+		}
+		{
+			c := Case{Kind: "backup", Sizes: []int{1, 1, 1, 1, 1, 1}, KeyLens: []int{1019, 1020, 1023, 1024, 1024, 1}}
+			vs, outcome, inc := runBackup(beng, c)
+			record(c, vs, outcome, inc)
+			r.AddExtra("backup_cases", 1)
 		}
 		beng.Close()
 	}
